@@ -143,14 +143,23 @@ fn attacks(rec: &mut Rec, ctx: &Ctx, idx: u64, rng: &mut ChaCha20Rng) {
     _ => rng.gen_range(2..=8),
   };
   let t = if ctx.thorough() && idx % 200 == 7 { 128 } else { t };
-  let ml = rng.gen_range(8..48);
+  let near = idx % 5 == 4;
+  let ml = if near { *pick(rng, &[66usize, 100, 130, 200]) } else { rng.gen_range(8..48) };
   let m = content(rng, ml, Content::Uniform);
   let e = rand_bytes_in(rng, 0..8);
   let tb = if rng.gen_bool(0.5) { t } else { rng.gen_range(2..=8) };
   let td = if t > 2 { t - 1 } else { t + 1 };
   rec.evals += 1;
   let mk = |rng: &mut ChaCha20Rng, m: &[u8], e: &[u8], t: u32| make(rng, m, e, t, t as usize + 1, 12);
-  let m2 = rand_bytes(rng, ml);
+  // the "other measurement": unrelated, or (near) equal but for one byte beyond offset 64
+  let m2 = if near {
+    let mut v = m.clone();
+    let pos = rng.gen_range(64..ml);
+    v[pos] ^= 0x20;
+    v
+  } else {
+    rand_bytes(rng, ml)
+  };
   let mut e2 = e.clone();
   e2.push(7);
   let all = (mk(rng, &m, &e, t), mk(rng, &m2, &e, tb), mk(rng, &m, &e2, t), mk(rng, &m, &e, td));
